@@ -788,6 +788,81 @@ def re_word(word, text):
     return re.search(r'(?<![A-Za-z0-9_])' + re.escape(word) + r'(?![A-Za-z0-9_])', text) is not None
 
 
+def err_exit_shape(core, P):
+    """the statements by which the handler of glom() gets hold of the error it raises and finalizes it:
+    taken from the module-level function that contains the `X._finalize(…)` call (glom() itself, or a
+    helper it was moved to), X renamed to `err`, the handled exception (the argument of
+    `X._set_wrapped(…)`) to `e`; only the statements that copy / fall back / wrap / finalize"""
+    import re
+    found = None
+    for fn in core.body:
+        if not isinstance(fn, ast.FunctionDef):
+            continue
+        for n in ast.walk(fn):
+            if (isinstance(n, ast.Call) and isinstance(n.func, ast.Attribute) and n.func.attr == '_finalize'
+                    and isinstance(n.func.value, ast.Name)):
+                found = (fn, n.func.value.id)
+    if found is None:
+        P.add('no module-level function calls `X._finalize(...)`')
+        return []
+    fn, var = found
+    exc = None
+    for n in ast.walk(fn):
+        if (isinstance(n, ast.Call) and isinstance(n.func, ast.Attribute) and n.func.attr == '_set_wrapped'
+                and n.args and isinstance(n.args[0], ast.Name)):
+            exc = n.args[0].id
+    if exc is None:
+        P.add('%s: `%s._set_wrapped(<name>)` not found' % (fn.name, var))
+        return []
+
+    def canon(line):
+        line = re.sub(r'(?<![A-Za-z0-9_.])%s(?![A-Za-z0-9_])' % re.escape(var), '\x00', line)
+        line = re.sub(r'(?<![A-Za-z0-9_.])%s(?![A-Za-z0-9_])' % re.escape(exc), 'e', line)
+        return line.replace('\x00', 'err')
+    out = []
+    for line in err_lines(fn, var):
+        c = canon(line)
+        if c == 'err = e' or any(w in c for w in ('copy.copy(', '.args', '_set_wrapped(', '.wrap(', '_finalize(')):
+            out.append(c)
+    return out
+
+
+def _rename(line, names):
+    """identifiers renamed (whole words, not attribute names)"""
+    import re
+    for i, old in enumerate(names):
+        line = re.sub(r'(?<![A-Za-z0-9_.])%s(?![A-Za-z0-9_])' % re.escape(old), '\x00%d\x00' % i, line)
+    for i, old in enumerate(names):
+        line = line.replace('\x00%d\x00' % i, names[old])
+    return line
+
+
+def err_wrap_shape(w, P):
+    """`GlomError.wrap(cls, exc)`: the statements that mention the wrapper object -- the name X of
+    `X.__wrapped = <the parameter>` --, X renamed to `wrapper`, the parameter to `exc`, the class the
+    wrapper is an instance of (`X = F(*exc.args)`) to `exc_wrapper_type`"""
+    if len(w.args.args) != 2:
+        P.add('GlomError.wrap: expected (cls, exc)')
+        return []
+    param = w.args.args[1].arg
+    x = None
+    for n in ast.walk(w):
+        if isinstance(n, ast.Assign) and len(n.targets) == 1:
+            t = n.targets[0]
+            if (isinstance(t, ast.Attribute) and t.attr == '__wrapped' and isinstance(t.value, ast.Name)
+                    and isinstance(n.value, ast.Name) and n.value.id == param):
+                x = t.value.id
+    if x is None:
+        P.add('GlomError.wrap: `X.__wrapped = %s` not found' % param)
+        return []
+    names = {x: 'wrapper', param: 'exc'}
+    for n in ast.walk(w):
+        if (isinstance(n, ast.Assign) and len(n.targets) == 1 and isinstance(n.targets[0], ast.Name)
+                and n.targets[0].id == x and isinstance(n.value, ast.Call) and isinstance(n.value.func, ast.Name)):
+            names[n.value.func.id] = 'exc_wrapper_type'
+    return [_rename(line, names) for line in err_lines(w, x)]
+
+
 def err_facts(ctx, core):
     P = ctx['P']
     find_def = ctx['find_def']
@@ -827,16 +902,17 @@ def err_facts(ctx, core):
         if isinstance(fn, ast.FunctionDef) and fn.name in ('__copy__', '__deepcopy__', '__reduce__', '__reduce_ex__',
                                                            '__getstate__', '__setstate__', '__getnewargs__'):
             copy_over.append(('GlomError.' + fn.name, 'other'))
-    g = find_def(core, 'glom')
-    exit_shape = err_lines(g, 'err') if g is not None else []
+    exit_shape = err_exit_shape(core, P)
     w = find_def(core, 'wrap', cls='GlomError')
-    wrap_shape = err_lines(w, 'wrapper') if w is not None else []
+    wrap_shape = err_wrap_shape(w, P) if w is not None else []
     if w is None:
         P.add('GlomError.wrap not found')
     sw = find_def(core, '_set_wrapped', cls='GlomError')
-    set_wrapped = [ast.unparse(x) for x in sw.body] if sw is not None else []
+    set_wrapped = []
     if sw is None:
         P.add('GlomError._set_wrapped not found')
+    elif len(sw.args.args) == 2:
+        set_wrapped = [_rename(ast.unparse(x), {sw.args.args[1].arg: 'exc'}) for x in sw.body]
     return mutable, fsets, inputs, writes, str_over, copy_over, exit_shape, wrap_shape, set_wrapped
 
 
